@@ -277,7 +277,7 @@ func (r *runner) grammarSiblings() {
 	if c.Quick() {
 		bound = "counts 1..64, 100, 127, 128, 255, 256, 1000, 2000, 5000, 9000, 9990..10010, 10049, 10050"
 	}
-	c.SecBound(sec, bound+" of the elements {04 00, 30 00, 5F0E 01 41, 06 01 2A}, flat and inside the entry point's own outer tag, at tlv.Decode+String and tlv.DecodeEncode; the ladder {1,2,16,100,1000,9999,10000,10001,10050} at every other TLV based entry point; EF.COM tag lists and DG11/DG12 tag lists of the same counts")
+	c.SecBound(sec, bound+" of the elements {04 00, 30 00, 5F0E 01 41, 06 01 2A}, flat and inside the entry point's own outer tag, at tlv.Decode+String and tlv.DecodeEncode; the ladder {1,2,16,100,1000,9999,10000,10001,10050} at every other TLV based entry point; EF.COM tag lists and DG11/DG12 tag lists of the same counts; DG11/DG12: every tag of the file's vocabulary listed n times x n matching data objects (also 1 x n, n x 1, wrapped in A0) for n in {2,16,100,300,1000}")
 	ladder := []int{1, 2, 16, 100, 1000, 9999, 10000, 10001, 10050}
 	for _, en := range grammarEPs {
 		ep := mustEP(en)
@@ -332,6 +332,58 @@ func (r *runner) grammarSiblings() {
 				body := append(append([]byte{}, t.pre...), append(append([]byte{0x5C}, berLen(len(list))...), list...)...)
 				in := append(append([]byte{t.outer}, berLen(len(body))...), body...)
 				r.doClass(sec, ep, in, "siblings:tag-list")
+			}
+		}
+	}
+	// tag lists that name the SAME tag n times together with n matching data objects (two factors: a list entry
+	// handler that reads "every occurrence" of its data object is run once per list entry)
+	for _, t := range []struct {
+		en    string
+		outer byte
+		tags  [][]byte
+	}{
+		{"document.NewDG11", 0x6B, [][]byte{{0x5F, 0x0E}, {0x5F, 0x0F}, {0x5F, 0x10}, {0x5F, 0x11}, {0x5F, 0x12}, {0x5F, 0x13}, {0x5F, 0x14}, {0x5F, 0x15}, {0x5F, 0x16}, {0x5F, 0x17}, {0x5F, 0x18}, {0x5F, 0x2B}, {0xA0}}},
+		{"document.NewDG12", 0x6C, [][]byte{{0x5F, 0x19}, {0x5F, 0x1A}, {0x5F, 0x1B}, {0x5F, 0x1C}, {0x5F, 0x1D}, {0x5F, 0x1E}, {0x5F, 0x26}, {0x5F, 0x55}, {0x5F, 0x56}, {0xA0}}},
+	} {
+		ep := mustEP(t.en)
+		for _, n := range []int{2, 16, 100, 300, 1000} {
+			if !c.Mine() {
+				continue
+			}
+			for _, tg := range t.tags {
+				for _, val := range [][]byte{{'A'}, []byte("20200101")} {
+					for _, shape := range []string{"n-entries-n-objects", "1-entry-n-objects", "n-entries-1-object", "n-entries-wrapped-in-A0"} {
+						ln, on := n, n
+						switch shape {
+						case "1-entry-n-objects":
+							ln = 1
+						case "n-entries-1-object":
+							on = 1
+						}
+						var list, objs []byte
+						for i := 0; i < ln; i++ {
+							list = append(list, tg...)
+						}
+						obj := append(append(append([]byte{}, tg...), berLen(len(val))...), val...)
+						if tg[0] == 0xA0 {
+							obj = []byte{0xA0, 0x07, 0x02, 0x01, 0x01, 0x5F, 0x0F, 0x01, 'A'}
+						}
+						for i := 0; i < on; i++ {
+							objs = append(objs, obj...)
+						}
+						if shape == "n-entries-wrapped-in-A0" {
+							cnt := byte(min(on, 99))
+							inner := append([]byte{0x02, 0x01, cnt}, objs...)
+							objs = append(append([]byte{0xA0}, berLen(len(inner))...), inner...)
+						}
+						body := append(append(append([]byte{0x5C}, berLen(len(list))...), list...), objs...)
+						in := append(append([]byte{t.outer}, berLen(len(body))...), body...)
+						if len(in) > 60000 {
+							continue
+						}
+						r.doClass(sec, ep, in, "siblings:repeated-tag-list-entry-x-objects/"+shape)
+					}
+				}
 			}
 		}
 	}
